@@ -25,8 +25,8 @@ Definition wcurve_least (l : list N) (n : N) : N :=
 
 (* wcet::Curve::extrapolate_next: min over k in 0..=n/2 of l[k] + l[n-k-1] *)
 Definition wextrapolate_next (l : list N) : N :=
-  let n := length l in
-  minN_or 0 (map (fun k => nthN l k + nthN l (n - k - 1)) (seq 0 (S (Nat.div n 2)))).
+  minN_or 0 (firstn (S (Nat.div (length l) 2))
+               (map (fun p => fst p + snd p) (combine l (rev_append l [])))).
 
 Definition wpush_next (l : list N) : list N := l ++ [wextrapolate_next l].
 
